@@ -60,6 +60,10 @@ def gen(rng):
         # what urllib3 switches on the context for the first handshake must not weaken the second
         "shared_ctx": ps == "https" and ds == "https" and rng.random() < 0.35,
     }
+    if ps == "https" and cell["proxy_cert"] == "ok" and not cell["shared_ctx"] and rng.random() < 0.4:
+        # the proxy's own identity checks beyond the chain: a pinned fingerprint (of the certificate it serves, or of another one
+        # from the same trusted CA) and an asserted name (its own, or another)
+        cell["proxy_verify"] = rng.choice(["pin_match", "pin_other", "pin_other", "name_match", "name_other"])
     return {"property": ID, "cell": cell}
 
 
@@ -134,6 +138,15 @@ def run(sc: dict) -> Result:
             kw.pop("ca_certs")
             kw.update(ssl_context=ctx_, proxy_ssl_context=ctx_, proxy_assert_hostname="proxy.test")
             res.probes["shared_context_for_proxy_and_destination"] += 1
+        pv = c.get("proxy_verify")
+        if pv in ("pin_match", "pin_other"):
+            import hashlib as _hl
+
+            kw["proxy_assert_fingerprint"] = _hl.sha256(T.der("proxy" if pv == "pin_match" else "origin")).hexdigest()
+        elif pv in ("name_match", "name_other"):
+            kw["proxy_assert_hostname"] = "proxy.test" if pv == "name_match" else "elsewhere.test"
+        if pv:
+            res.probes["proxy_verify:" + pv] += 1
         if c["forwarding"]:
             kw["use_forwarding_for_https"] = True
         pm = urllib3.ProxyManager(proxy_url, **kw)
@@ -170,7 +183,7 @@ def run(sc: dict) -> Result:
         at_origin = [q for q in w.requests if q.peer == "origin"]
         origin_plain = sum(len(tp.plain_in) for tp in origin_tls)
         ph_names = {k_.lower() for k_, _ in c["proxy_headers"]}
-        proxy_should_fail_tls = ps == "https" and c["proxy_cert"] == "bad"
+        proxy_should_fail_tls = ps == "https" and (c["proxy_cert"] == "bad" or c.get("proxy_verify") in ("pin_other", "name_other"))
         refused_later = tunnel_expected and c["connect"].startswith("200_then_")
         connect_refused = tunnel_expected and c["connect"] != "200" and not refused_later
         origin_bad = tunnel_expected and c["origin_cert"] != "ok" and not proxy_should_fail_tls and not connect_refused
@@ -318,7 +331,7 @@ def _has_proxy_error(e) -> bool:
 
 
 def shrinks(sc):
-    simple = {"shared_ctx": False, "prelude_http": False, "proxy_scheme": "http", "dest_scheme": "https", "forwarding": False, "proxy_cert": "ok", "origin_cert": "ok", "connect": "200", "proxy_headers": [], "req_headers": [], "host": "name", "port": None, "nreq": 1, "close_between": "none"}
+    simple = {"shared_ctx": False, "prelude_http": False, "proxy_scheme": "http", "dest_scheme": "https", "forwarding": False, "proxy_cert": "ok", "origin_cert": "ok", "connect": "200", "proxy_headers": [], "req_headers": [], "host": "name", "port": None, "nreq": 1, "close_between": "none", "proxy_verify": None}
     for k, v in simple.items():
         if sc["cell"].get(k, v) != v:
             c = copy.deepcopy(sc)
